@@ -779,6 +779,9 @@ def run(prop, tier):
     if prop in violations:
         v = violations[prop]
         res.add_violation(v.get("what", "property violated on the implementation"), v, witness_key=None)
+    elif not tie["ok"] and not mismatches:
+        res.tie_undischarged("translation tie broken: " + tie["detail"][:700] + " -- the correspondence agrees on all %d runs and the property's checker found no failing input" % tot_ev,
+                             {"no_longer_checks": "TokTie.v / TokTie2.v tie lemmas, TokGenProps.v %s_gen" % prop, "tie_detail": tie["detail"]})
     elif not tie["ok"] or mismatches:
         what = []
         if not tie["ok"]:
